@@ -1,5 +1,5 @@
 """Which items of /repo/src are put under contract, unit by unit (found by name, never by line)."""
-from .passes import Unsupported, norm
+from .passes import Unsupported, norm, impl_parts
 from . import rules as R
 
 
@@ -67,4 +67,29 @@ def build_units(g):
     u.append(g.impl_text("actor_ref.rs", S.impl("actor_ref.rs", lambda h: h == norm("impl<T: Actor> Clone for ActorWeak<T>")),
                          ["clone"], "actor_ref.rs::Clone for ActorWeak"))
     units.append(("actor_ref", "\n".join(u)))
+
+    # ---------------- type-erased handles (handler.rs, actor_control.rs)
+    TARGET_DECL = "    spec fn target(&self) -> HandleView;"
+    TARGET_IMPL = "    open spec fn target(&self) -> HandleView { self.hv() }"
+    LIFT = ("clone_boxed", "downgrade", "upgrade")
+    u = []
+    for file, traits in (("handler.rs", ("TellHandler", "AskHandler", "WeakTellHandler", "WeakAskHandler")),
+                         ("actor_control.rs", ("ActorControl", "WeakActorControl"))):
+        for tr in traits:
+            who = "ActorWeak" if tr.startswith("Weak") else "ActorRef"
+            decl = S.top(file, "trait", tr)
+            u.append(g.impl_text(file, decl, None, "%s::%s" % (file, tr), extra_members=TARGET_DECL,
+                                 lift={m: (None, None) for m in LIFT}, skip=("debug_fmt",)))
+            im = S.impl_by(file, trait_head=tr, self_ty="%s<T>" % who)
+            u.append(g.impl_text(file, im, None, "%s::%s for %s" % (file, tr, who), extra_members=TARGET_IMPL,
+                                 lift={m: ("%s__%s__%s" % (m, who, tr), "%s<T>" % who) for m in LIFT}, skip=("debug_fmt",)))
+            # Clone for Box<dyn Trait>
+            ci = S.impl_by(file, trait_head="Clone", self_starts="Box<dyn %s" % tr, exact_dyn=tr)
+            u.append(g.impl_text(file, ci, ["clone"], "%s::Clone for Box<dyn %s>" % (file, tr), header="",
+                                 lift={"clone": ("clone__Box%s" % tr, impl_parts(ci.header_raw)["self_ty"])}, bare=True))
+            for amp, nm in (("", who), ("&", "Ref" + who)):
+                fi = S.impl_by(file, trait_text="From<%s%s<T>>" % (amp, who), self_starts="Box<dyn %s" % tr, exact_dyn=tr)
+                u.append(g.impl_text(file, fi, ["from"], "%s::From<%s%s> for Box<dyn %s>" % (file, amp, who, tr), header="",
+                                     lift={"from": ("from__%s__Box%s" % (nm, tr), impl_parts(fi.header_raw)["self_ty"])}, bare=True))
+    units.append(("erased_handles", "\n".join(u)))
     return units
